@@ -15,9 +15,11 @@ CHECKS = {'C10': {'level': 'exploration',
                        '(all, all-but-last, (0,0,1), reversed with a repetition) is fitted with stump, hinge, affine, '
                        'dense and dstep tables under the rss criterion and compared with the brute-force minimum of '
                        'the class; the consistency clauses are checked for all 4 criteria and all 8 learners (trees '
-                       'of depth 1 and 2) on datasets of 2..3 (thorough 2..4) samples, and for 1, 2 and 16 threads on '
-                       'the two schemas with two features of one kind; a complete small-scope enumeration, not a '
-                       'proof for more samples, more features or other values',
+                       'of depth 1 and 2) on the datasets of 2..3 (thorough 2..4; four-level scalar schema 2..4) samples '
+                       'with one feature and 2..3 samples with two features (two outputs: 2 samples; gradients of the '
+                       'second output always by the thin rule; quick: only rss and aicc at 3 samples), and for 1, 2 '
+                       'and 16 threads on the two schemas with two features of one kind; a complete small-scope '
+                       'enumeration, not a proof for more samples, more features or other values',
          'level_note': 'trusted: the brute-force reference (two-pass means and least squares in long double on the '
                        'enumerated table), the dataset layer (property C08; feature types, sizes and target '
                        'dimensions are compared with the table and a difference aborts the check), g++ 12, the '
@@ -35,7 +37,13 @@ CHECKS = {'C10': {'level': 'exploration',
                          'values of the fitted samples; dense table = one constant per observed label (combination); '
                          'dstep = one constant for one observed label, zero elsewhere; scores floored at 1e3*eps',
                          'tolerance of the statement: |score - best| <= 1e-9 (1 + best) with the floor applied to '
-                         'both sides; algebraic clauses (add, scale, merge) 1e-12 relative, permutation exactly'],
+                         'both sides; algebraic clauses (add, scale, merge) 1e-12 relative, permutation exactly',
+                         'a fit that the table predicts to index an empty container (dstep table, categorical feature '
+                         'without a given value among the fitted samples) is first probed in a forked child process so '
+                         'that a crash is reported as a violation instead of killing the shard',
+                         'trees of depth 2 can only fit when both children of the root still hold two distinct '
+                         'values: this needs the four-level scalar schema with >= 4 samples, so most depth-2 '
+                         'evaluations are trivial (no_fit) and are counted as such'],
          'deadline': {'quick': 480, 'thorough': 2400},
          'stages': [{'name': 'optimal',
                      'harness': 'c10_wlearner',
@@ -52,6 +60,6 @@ CHECKS = {'C10': {'level': 'exploration',
                      'what': 'all criteria x all learners (k-best / k-split tables, trees of depth 1 and 2): predict '
                              'adds to two different pre-filled buffers, zero for a missing selected feature, depends '
                              'only on the sample, equals the table of the split() group, scale by one factor and per '
-                             'group, merge keeps the sum (same-type triple and the mixed list of all learners), '
+                             'group, merge keeps the sum (same-type list [A, B, C, A] fitted on three gradient tensors, and the mixed list of all learners), '
                              'depth-1 tree == stump, score (and the unique best feature) independent of 1/2/16 '
                              'threads'}]}}
